@@ -8,7 +8,8 @@ From HV Require Import Lib.Base Lib.Pack C10.Model.
 Open Scope N_scope.
 
 Inductive qo := QO (q : name) (t : N) (ob : obs) (verdict : bool) (k : N).
-Inductive dcase := CZ (o : name) (z : zone) (zone_ok : bool) (qs : list qo).
+(* [modelled] = false: a signed zone queried with DO, judged by the harness oracles only *)
+Inductive dcase := CZ (modelled : bool) (o : name) (z : zone) (zone_ok : bool) (qs : list qo).
 
 (* ---- decoder: name = len, labels; u16 = hi, lo; list = count, items; bool = 0/1 *)
 Definition P (A : Type) := list N -> option (A * list N).
@@ -68,11 +69,12 @@ Definition p_qo : P qo := fun l =>
   match p_byte l4 with Some (k, l5) => Some (QO q t ob v k, l5) | None => None end
   | None => None end | None => None end | None => None end | None => None end.
 Definition p_case : P dcase := fun l =>
-  match p_name l with Some (o, l1) =>
+  match p_bool l with Some (m, l0) =>
+  match p_name l0 with Some (o, l1) =>
   match p_bool l1 with Some (ok, l2) =>
   match p_list p_rrset l2 with Some (z, l3) =>
-  match p_list p_qo l3 with Some (qs, l4) => Some (CZ o z ok qs, l4) | None => None end
-  | None => None end | None => None end | None => None end.
+  match p_list p_qo l3 with Some (qs, l4) => Some (CZ m o z ok qs, l4) | None => None end
+  | None => None end | None => None end | None => None end | None => None end.
 
 Definition decode (b : pbytes) : option dcase :=
   match p_case (unpack b) with Some (c, []) => Some c | _ => None end.
@@ -90,8 +92,8 @@ Definition check_q (z : zone) (o : name) (ok : bool) (x : qo) : bool :=
   && (if ok then Bool.eqb (judge z o (spec_answer z o q t) ob) v && (known_class z o q t =? k) else true).
 
 Definition check_d (c : dcase) : bool :=
-  let 'CZ o z ok qs := c in
-  Bool.eqb (wfb z o) ok && forallb (check_q z o ok) qs.
+  let 'CZ m o z ok qs := c in
+  if m then Bool.eqb (wfb z o) ok && forallb (check_q z o ok) qs else true.
 
 Definition case := pbytes.
 Definition check (c : case) : bool := match decode c with Some d => check_d d | None => false end.
@@ -103,8 +105,8 @@ Definition bad (cs : list case) : list N := bad_idx check 0 cs.
 Definition show (c : case) :=
   match decode c with
   | None => None
-  | Some (CZ o z ok qs) =>
-      Some (o, z, wfb z o,
+  | Some (CZ m o z ok qs) =>
+      Some (m, o, z, wfb z o,
             map (fun x => let 'QO q t ob v k := x in
                           (q, t, check_q z o ok x, respond z o q t, spec_answer z o q t,
                            judge z o (spec_answer z o q t) ob, known_class z o q t)) qs)
